@@ -1735,3 +1735,9 @@ impl proto::Peer for Peer {
         Ok(response)
     }
 }
+
+#[cfg(feature = "verif")]
+#[allow(missing_docs, dead_code, unused_imports)]
+pub(crate) mod verif_h {
+    include!(concat!(env!("H2_VERIF_DIR"), "/harness/client.rs"));
+}
